@@ -566,10 +566,29 @@ def symbolic_join(I, node, sep, it, st):
     raise EngineLimit('join over a symbolic list')
 
 
+CNT = z3.Function('str.count1', z3.StringSort(), z3.StringSort(), z3.IntSort())
+REMOVE = z3.Function('str.remove1', z3.StringSort(), z3.StringSort(), z3.StringSort())
+
+
+def count_axioms(I):
+    if 'str-count' in I.axiom_keys:
+        return
+    I.axiom_keys.add('str-count')
+    s, c, d = z3.String('ax!s'), z3.String('ax!c'), z3.String('ax!d')
+    I.axioms.append(z3.ForAll([s, c], z3.And(CNT(s, c) >= 0, CNT(s, c) <= z3.Length(s)), patterns=[CNT(s, c)]))
+    I.axioms.append(z3.ForAll([s, c], z3.Length(REMOVE(s, c)) == z3.Length(s) - CNT(s, c), patterns=[REMOVE(s, c)]))
+    I.axioms.append(z3.ForAll([s, c, d], z3.Implies(d != c, CNT(REMOVE(s, c), d) == CNT(s, d)), patterns=[CNT(REMOVE(s, c), d)]))
+    I.trusted.add('python facts about removing one character c from a string: len(s.replace(c,"")) == len(s) - s.count(c); other characters keep their counts')
+
+
 def str_replace(I, node, s, a, b, st):
     ac, bc = a.conc(), b.conc()
     if ac is None or bc is None:
         raise EngineLimit('replace with symbolic pattern')
+    if bc == '' and len(ac) == 1:
+        count_axioms(I)
+        yield st, SStr(expr=REMOVE(s.z(), z3.StringVal(ac)))
+        return
     I.trusted.add('str.replace on native strings is z3 ReplaceAll')
     yield st, SStr(expr=z3.SeqReplaceAll(s.z(), z3.StringVal(ac), z3.StringVal(bc)) if hasattr(z3, 'SeqReplaceAll') else _replace_all(s.z(), ac, bc))
 
@@ -643,3 +662,76 @@ def ext_textout_write(I, node, selfref, args, kwargs, st):
 
 
 EXT_METHODS[('ext.TextOut', 'write')] = ext_textout_write
+
+
+# ---- externals used by map_if validation (C15) -------------------------------------------
+_ext_ufs = {}
+
+
+def _uf(name, *sorts):
+    if name not in _ext_ufs:
+        _ext_ufs[name] = z3.Function(name, *sorts)
+    return _ext_ufs[name]
+
+
+def ext_errh_noop(I, node, selfref, args, kwargs, st):
+    yield st, NONE
+
+
+def ext_errh_ele_error(I, node, selfref, args, kwargs, st):
+    """error handler sink: the ghost log keeps (code, offending value) of every element error"""
+    names = ['err_cde', 'err_str', 'bad_value', 'refdes']
+    vals = list(args) + [kwargs.get(n, NONE) for n in names[len(args):]]
+    code, val = vals[0], vals[2]
+    if not isinstance(code, SStr):
+        raise EngineLimit('ele_error code %r' % (code,))
+    o = st.heap[selfref.addr]
+    log = o.fields['log']
+    lo = st.heap[log.addr]
+    entry = STuple([code, val])
+    lo2 = st.mut(log.addr)
+    lo2.e = z3.Concat(lo.e, z3.Unit(to_z(entry, lo.ety)))
+    yield st, NONE
+
+
+def ext_dataele_get(I, node, selfref, args, kwargs, st):
+    num = args[0]
+    if not isinstance(num, SStr):
+        raise EngineLimit('data element number %r' % (num,))
+    S, IS = z3.StringSort(), z3.IntSort()
+    nz = num.z()
+    d = HDict([(SStr.const('data_type'), SStr(expr=_uf('dataele.type', S, S)(nz))),
+               (SStr.const('min_len'), SInt(_uf('dataele.min', S, IS)(nz))),
+               (SStr.const('max_len'), SInt(_uf('dataele.max', S, IS)(nz))),
+               (SStr.const('name'), SStr(expr=_uf('dataele.name', S, S)(nz)))])
+    I.trusted.add('DataElements.get_by_elem_num: a fixed table (deterministic functions of the element number); every referenced number is defined (ground C16)')
+    yield st, I.alloc(st, d)
+
+
+def ext_codes_isvalid(I, node, selfref, args, kwargs, st):
+    key, code = args[0], args[1]
+    S = z3.StringSort()
+    I.trusted.add('ExternalCodes.isValid: a fixed relation (deterministic function of code set id and value); referenced sets are defined or excluded (ground C16)')
+    yield st, SBool(_uf('extcodes.valid', S, S, z3.BoolSort())(key.z(), code.z()))
+
+
+def ext_params_get(I, node, selfref, args, kwargs, st):
+    k = args[0].conc()
+    o = st.heap[selfref.addr]
+    if k not in o.fields:
+        raise EngineLimit('param %r' % k)
+    yield st, o.fields[k]
+
+
+EXT_METHODS[('ext.ErrH', 'add_ele')] = ext_errh_noop
+EXT_METHODS[('ext.ErrH', 'ele_error')] = ext_errh_ele_error
+EXT_METHODS[('ext.DataElements', 'get_by_elem_num')] = ext_dataele_get
+EXT_METHODS[('ext.ExtCodes', 'isValid')] = ext_codes_isvalid
+EXT_METHODS[('ext.Params', 'get')] = ext_params_get
+
+
+def ext_parent_is_composite(I, node, selfref, args, kwargs, st):
+    yield st, st.heap[selfref.addr].fields['composite']
+
+
+EXT_METHODS[('ext.ParentNode', 'is_composite')] = ext_parent_is_composite
